@@ -66,6 +66,23 @@ def rule_blowfish(model, rep):
             bad = [j for j, (a, b) in enumerate(zip(box, S[i])) if a != b]
             rep.check(box == S[i], R, site(BFB, f"BLOWFISH_S[{i}]"), f"256 words; mismatches at {bad[:4]}" if bad or len(box) != 256 else "256 words equal the hex digits of pi",
                       f"S-box {i} is the next 256 words of pi", witness="builtin bcrypt digests differ for the inputs that index the changed entry")
+    # the key schedule overwrites P and the four S-boxes in place: every engine must start from its own copy, at the depth it writes
+    init = model.func(BFB, "BlowfishEngine.__init__")
+    st = {ast.unparse(a.targets[0]): a.value for a in walk_no_nested(init) if isinstance(a, ast.Assign) and len(a.targets) == 1}
+
+    def flat_copy(v, name):
+        return v is not None and ast.unparse(v) in (f"list({name})", f"{name}[:]", f"{name}.copy()", f"[*{name}]")
+
+    def deep_copy(v, name):
+        if isinstance(v, ast.ListComp) and len(v.generators) == 1 and ast.unparse(v.generators[0].iter) == name and isinstance(v.generators[0].target, ast.Name) and not v.generators[0].ifs:
+            x = v.generators[0].target.id
+            return ast.unparse(v.elt) in (f"list({x})", f"{x}[:]", f"{x}.copy()", f"[*{x}]")
+        return v is not None and ast.unparse(v) in (f"copy.deepcopy({name})", f"deepcopy({name})")
+    rep.check(flat_copy(st.get("self.P"), "BLOWFISH_P"), R, site(BFB, "BlowfishEngine.__init__") + " P", ast.unparse(st["self.P"]) if "self.P" in st else "<none>",
+              "each engine works on its own copy of the P-array")
+    rep.check(deep_copy(st.get("self.S"), "BLOWFISH_S"), R, site(BFB, "BlowfishEngine.__init__") + " S", ast.unparse(st["self.S"]) if "self.S" in st else "<none>",
+              "each engine works on its own copy of every S-box (the boxes themselves are copied, not just the list of four)",
+              witness="the first raw_bcrypt() of a process is right; the key schedule has then overwritten the shared constants and every later digest is wrong")
     u = model.unit(BF)
     v = model.fold(u, ast.Name(id="BCRYPT_CDATA", ctx=ast.Load()))
     import struct
@@ -449,6 +466,8 @@ def run(model, rep):
     rule_scrypt(model, rep)
     prim.rule_hmac(model, rep, "C11.f-hmac-pbkdf")
     prim.rule_pbkdf(model, rep, "C11.f-hmac-pbkdf")
+    prim.rule_hash_names(model, rep, "C11.g-digest-names")
+    prim.rule_name_cache(model, rep, "C11.h-name-cache-owner")
     # "for every digest": lookup_hash() resolves digests hashlib lacks (md4 under OpenSSL 3) to the built-in constructor and reports them as
     # supported; compile_hmac() and pbkdf1() use that constructor -- pbkdf2_hmac() must not depend on hashlib knowing the name
     D = "passlib.crypto.digest"
